@@ -95,6 +95,35 @@ def judgeC13 (id rest impl : String) : Verdict :=
   { corr := proj mo == proj io && (mo2.map proj) == (io2?.map proj), oi := oracleC13 c io io2?, om := oracleC13 c mo mo2,
     nt := match io2? with | some cl => io.file.length < cl.file.length || c.policy.cap.isSome || !c.policy.intr.isEmpty || !c.policy.script.isEmpty | none => false }
 
+/-- C12: outcome classes only -/
+def classesP (o : PObs) : String :=
+  " ".intercalate (o.replies.map fun (r, _) => match r with
+    | .ok => "ok" | .stats .. => "ok" | .err .. => "err" | .panic => "panic" | .other s => if s.startsWith "builderr" then "builderr" else s)
+
+def judgeC12 (kind id rest impl : String) : Verdict :=
+  let bad (s : String) : Bool := (s.splitOn "panic").length > 1 || s == "timeout" || s == "abort"
+  if kind == "X" then
+    let m := runX (toks rest)
+    let implPanic := impl == "panic" || impl == "timeout" || impl == "abort"
+    { corr := if m == "unmodelled" then true else (m == "panic") == implPanic && (implPanic || m == impl),
+      oi := !implPanic, om := m != "panic", nt := true }
+  else if kind == "F" then
+    let c := parseFCase id rest
+    match c.cfg with
+    | none => { corr := impl == c.buildErr, oi := !bad impl, om := true, nt := false }
+    | some _ =>
+      let mo := runF c
+      let io := (splitTrim impl ";").map parseFReply
+      let cls (rs : List FReply) : String := " ".intercalate (rs.map fun r => match r with
+        | .seg _ => "seg" | .init _ => "init" | .bool _ => "b" | .num _ => "n" | r => Driver.FReply.show r)
+      { corr := cls mo == cls io, oi := !(io.any (· == .panic)) && !bad impl, om := !(mo.any (· == .panic)), nt := true }
+  else
+    let c := parsePCase id rest
+    let mo := runP c
+    let (io, _) := parsePObs2 impl
+    { corr := classesP mo == classesP io, oi := !(io.replies.any fun r => r.1 == PR.panic) && !bad impl,
+      om := !(mo.replies.any fun r => r.1 == PR.panic), nt := true }
+
 def regionC06 (c : PCase) (o : PObs) : String :=
   if reordered (accV c.ops o) then "reordered-duration" else "-"
 
@@ -121,6 +150,7 @@ def judge (prop kind id rest impl : String) : Verdict :=
   | "C08" => judgeC08 id rest impl
   | "C18" => judgeC18 id rest impl
   | "C13" => judgeC13 id rest impl
+  | "C12" => judgeC12 kind id rest impl
   | "C10" => judgeFrag id rest impl projC10 oracleC10
   | "C11" => judgeFrag id rest impl projC11 oracleC11
   | "C16" => judgeC16 kind id rest impl
